@@ -2,12 +2,19 @@
 (* TV of concurrent histories of the real, undecorated cache stack            *)
 (* (harness/cmd/cache stress): per goroutine Invoke ("inv") and Return        *)
 (* ("ret") events in the total order of the trace writer's mutex.  The        *)
-(* linearisation points are not logged: TLC explores every placement of a     *)
-(* silent Lin step between a call's inv and ret under CacheLin.tla.  Rounds   *)
-(* are independent (every "reset" line is an initial state).  A round whose   *)
-(* last line is reached prints "accepted" together with the deviation tags    *)
-(* the linearisation relied upon (the pipeline keeps the smallest set); a     *)
-(* round that never prints has no linearisation => violation.                 *)
+(* linearisation points are not logged: TLC explores the placements of the    *)
+(* silent Lin steps between a call's inv and ret under CacheLin.tla.          *)
+(*  - linearisability is local, so the pipeline projects every round onto     *)
+(*    its keys: one mini-round per (round, key); every "reset" line is an     *)
+(*    initial state, mini-rounds are independent;                             *)
+(*  - a read (Get/GetPart) does not change the abstract state, so it is       *)
+(*    linearised deterministically at the first abstract state of its window  *)
+(*    that explains its result (preferring an explanation without deviation); *)
+(*  - a write (Set/Remove/PutPart/DeletePart) is linearised just before some  *)
+(*    Return event (any linearisation can be normalised to that form).        *)
+(* A mini-round whose last line is reached prints "accepted" with the         *)
+(* deviation tags its linearisation relied upon (the pipeline keeps the       *)
+(* smallest set); one that never prints has no linearisation => violation.    *)
 (* "race" / "crash" lines (race detector reports, runtime crashes) are        *)
 (* accepted only when an open deviation explains them.                        *)
 (* The pipeline adds to every inv line the index "ret" of its ret line.       *)
@@ -20,35 +27,51 @@ Trace == ndJsonDeserialize(IOEnv.TRACE_FILE)
 VARIABLES A, l, pend, used, rd, pers, ended
 tvars == <<A, l, pend, used, rd, pers, ended>>
 
-NoPend == [st |-> "none", kind |-> "", k |-> "", v |-> "", n |-> 0, ret |-> 0]
+NoPend == [st |-> "none", kind |-> "", k |-> "", v |-> "", n |-> 0, ret |-> 0, su |-> {}]
 ChunksOf(e) == [i \in 1..Len(e.chunks) |-> [k |-> e.chunks[i].k, v |-> e.chunks[i].v, i |-> e.chunks[i].i]]
+IsRead(p) == p.kind \in {"cget", "pget"}
+OpOf(p) == [kind |-> p.kind, k |-> p.k, v |-> p.v, n |-> p.n]
+ResOf(p) == [st |-> Trace[p.ret].st, chunks |-> ChunksOf(Trace[p.ret])]
+
+\* pending reads are (re-)examined against the abstract state AA
+Refresh(pp, AA) ==
+  [c \in Clients |->
+     IF pp[c].st = "none" \/ ~IsRead(pp[c]) THEN pp[c]
+     ELSE LET x == Lin(AA, pers, OpOf(pp[c]), ResOf(pp[c]), FALSE) IN
+          IF ~x.ok THEN pp[c]
+          ELSE IF pp[c].st = "invoked" THEN [pp[c] EXCEPT !.st = "lin", !.su = x.used]
+          ELSE IF Cardinality(x.used) < Cardinality(pp[c].su) THEN [pp[c] EXCEPT !.su = x.used]
+          ELSE pp[c]]
 
 TInit == \E i \in {j \in 1..Len(Trace) : Trace[j].t = "reset"} :
             /\ l = i + 1 /\ rd = Trace[i].round /\ pers = Trace[i].pers /\ ended = FALSE
             /\ A = AInit /\ used = {} /\ pend = [c \in Clients |-> NoPend]
 
 TInvoke == /\ Trace[l].t = "inv"
-           /\ LET e == Trace[l] IN
-              /\ pend[e.c].st = "none"
-              /\ pend' = [pend EXCEPT ![e.c] = [st |-> "invoked", kind |-> e.kind, k |-> e.k, v |-> e.v, n |-> e.n, ret |-> e.ret]]
-              /\ A' = IF e.kind = "cset" THEN [A EXCEPT !.toks[e.k] = A.toks[e.k] \cup {e.v}]
-                      ELSE IF e.kind = "pput" THEN [A EXCEPT !.toks[e.k] = A.toks[e.k] \cup {"p"}] ELSE A
+           /\ LET e == Trace[l]
+                  A1 == IF e.kind = "cset" THEN [A EXCEPT !.toks[e.k] = A.toks[e.k] \cup {e.v}]
+                        ELSE IF e.kind = "pput" THEN [A EXCEPT !.toks[e.k] = A.toks[e.k] \cup {"p"}] ELSE A
+              IN /\ pend[e.c].st = "none"
+                 /\ A' = A1
+                 /\ pend' = Refresh([pend EXCEPT ![e.c] = [st |-> "invoked", kind |-> e.kind, k |-> e.k, v |-> e.v,
+                                                           n |-> e.n, ret |-> e.ret, su |-> {}]], A1)
            /\ l' = l + 1 /\ UNCHANGED <<used, rd, pers, ended>>
 
 OthersInFlight(c) == \E d \in Clients \ {c} : pend[d].st # "none" /\ pend[d].k = pend[c].k /\ pend[d].kind \in {"pput", "pget"}
 
-TLin(c) == /\ pend[c].st = "invoked"
-           /\ LET r == Trace[pend[c].ret]
-                  x == Lin(A, pers, [kind |-> pend[c].kind, k |-> pend[c].k, v |-> pend[c].v, n |-> pend[c].n],
-                           [st |-> r.st, chunks |-> ChunksOf(r)], OthersInFlight(c)) IN
-              /\ x.ok /\ A' = x.st /\ used' = used \cup x.used
-           /\ pend' = [pend EXCEPT ![c].st = "lin"]
-           /\ UNCHANGED <<l, rd, pers, ended>>
+\* linearisation of a write, just before some Return
+TLin(c) == /\ Trace[l].t = "ret"
+           /\ pend[c].st = "invoked" /\ ~IsRead(pend[c])
+           /\ LET x == Lin(A, pers, OpOf(pend[c]), ResOf(pend[c]), OthersInFlight(c)) IN
+              /\ x.ok /\ A' = x.st
+              /\ pend' = Refresh([pend EXCEPT ![c].st = "lin", ![c].su = x.used], x.st)
+           /\ UNCHANGED <<l, used, rd, pers, ended>>
 
 TReturn == /\ Trace[l].t = "ret"
            /\ pend[Trace[l].c].st = "lin"
+           /\ used' = used \cup pend[Trace[l].c].su
            /\ pend' = [pend EXCEPT ![Trace[l].c] = NoPend]
-           /\ l' = l + 1 /\ UNCHANGED <<A, used, rd, pers, ended>>
+           /\ l' = l + 1 /\ UNCHANGED <<A, rd, pers, ended>>
 
 TRace == /\ Trace[l].t = "race"
          /\ RaceExplained(pers, Trace[l].a, Trace[l].b)
